@@ -1,6 +1,9 @@
 //! C06: xargs never builds a command line the operating system rejects.
 //! Input: {mode:"run", groups:[{count, len}..] (arguments in this order, contents deterministic), opts:[..],
-//!         env:{count, size}, rlim (bytes; 0 = unlimited)}
+//!         env:{count, size}, rlim (bytes; 0 = unlimited),
+//!         cmdpath:{len, via_path} (optional: the recorder is reached through a path of about len bytes - given as the command,
+//!                  or as a bare name found through a PATH directory of that length),
+//!         repl:{pre, times} (optional: -I{} with the single initial argument "x"*pre ++ "{}"*times)}
 //!     -> {execs:[{argc, argbytes, maxarg, envc, envbytes, fname}], exit, e2big, delivered, total, order_ok}
 //!   or   {mode:"probe", argc, len, env:{count,size}, rlim}   one direct execve of the recorder
 //!     -> {ok, x:{argc, argbytes, maxarg, envc, envbytes, fname}}
@@ -120,16 +123,55 @@ impl Prop for P06 {
         }
         let mut o = XOpts::new(&stdin);
         o.opts = vec!["-0".into()];
+        // the recorder behind a long path: execve copies the name of the file it runs next to the arguments
+        let mut vlen = vlen; // bytes of argv[0]
+        let mut fname = vlen + 1; // bytes of the file name the kernel is given, with terminator
+        let mut path_env: Option<String> = None;
+        let want = input["cmdpath"]["len"].as_u64().unwrap_or(0) as usize;
+        if want > 0 {
+            let mut dir = self.sb.path().join("lp");
+            let _ = std::fs::remove_dir_all(&dir);
+            while dir.as_os_str().len() + 201 + 6 < want {
+                dir = dir.join("d".repeat(200));
+            }
+            let rest = want.saturating_sub(dir.as_os_str().len() + 1 + 6);
+            if rest > 1 {
+                dir = dir.join("e".repeat((rest - 1).min(250)));
+            }
+            std::fs::create_dir_all(&dir).unwrap();
+            let link = dir.join("vrecl");
+            let _ = std::os::unix::fs::symlink(&vrec, &link);
+            if input["cmdpath"]["via_path"].as_bool().unwrap_or(false) {
+                o.cmd = Some("vrecl".into());
+                vlen = 5;
+                path_env = Some(dir.to_string_lossy().into_owned());
+            } else {
+                vlen = link.as_os_str().len();
+                o.cmd = Some(link.clone());
+            }
+            fname = link.as_os_str().len() + 1;
+        }
+        let repl = input.get("repl").filter(|r| r.is_object()).map(|r| (r["pre"].as_u64().unwrap_or(0) as usize, r["times"].as_u64().unwrap_or(1) as usize));
+        if repl.is_some() {
+            o.opts.push("-I{}".into());
+        }
         for x in arr(&input["opts"]) {
             o.opts.push(x.as_str().unwrap_or("").to_string());
         }
         // fixed initial arguments of the command: they are part of every command line
         let ninit = input["init"]["count"].as_u64().unwrap_or(0) as usize;
         let init: Vec<Vec<u8>> = (0..ninit).map(|k| format!("I{:04}{}", k, "i".repeat((input["init"]["len"].as_u64().unwrap_or(5) as usize).saturating_sub(5))).into_bytes()).collect();
+        let init: Vec<Vec<u8>> = match repl {
+            Some((pre, times)) => vec![format!("{}{}", "x".repeat(pre), "{}".repeat(times)).into_bytes()],
+            None => init,
+        };
         o.init = init.clone();
         o.sum_mode = true;
         o.clear_env = true;
         o.env = env_vars(&input["env"]);
+        if let Some(p) = path_env {
+            o.env.push(("PATH".into(), p));
+        }
         o.rlimit_stack = Some(rl);
         o.timeout_s = 300;
         let r = run_xargs(&self.sb, &o);
@@ -144,6 +186,22 @@ impl Prop for P06 {
         let mut order_ok = true;
         for s in &r.sums {
             let nall = s["n"].as_u64().unwrap_or(0) as usize;
+            if let Some((pre, times)) = repl {
+                // one command per input item: the initial argument with every {} replaced by the item
+                let mut one = "x".repeat(pre).into_bytes();
+                if pos < args.len() {
+                    for _ in 0..times {
+                        one.extend(&args[pos]);
+                    }
+                }
+                if nall != 1 || pos >= args.len() || fnv(&[one]) != s["h"].as_str().unwrap_or("") {
+                    order_ok = false;
+                }
+                pos = (pos + 1).min(args.len());
+                execs.push(json!({"argc": nall + 1, "argbytes": s["bytes"].as_u64().unwrap_or(0) as usize + vlen + 1, "maxarg": (s["maxlen"].as_u64().unwrap_or(0) as usize).max(vlen),
+                                  "envc": s["envc"], "envbytes": s["envbytes"], "fname": fname}));
+                continue;
+            }
             let n = nall.saturating_sub(ninit);
             let end = (pos + n).min(args.len());
             let mut whole: Vec<Vec<u8>> = init.clone();
@@ -153,7 +211,7 @@ impl Prop for P06 {
             }
             pos = end;
             execs.push(json!({"argc": nall + 1, "argbytes": s["bytes"].as_u64().unwrap_or(0) as usize + vlen + 1, "maxarg": (s["maxlen"].as_u64().unwrap_or(0) as usize).max(vlen),
-                              "envc": s["envc"], "envbytes": s["envbytes"], "fname": vlen + 1}));
+                              "envc": s["envc"], "envbytes": s["envbytes"], "fname": fname}));
         }
         let stderr = String::from_utf8_lossy(&r.stderr);
         json!({"execs": execs, "exit": r.exit, "e2big": stderr.contains("too long") && stderr.contains("rgument list") || r.exit == 126,
@@ -198,6 +256,23 @@ impl Prop for P06 {
             2 => json!(["-s", "30000000"]),
             _ => json!([]),
         };
+        // -I: what has to fit is the argument after the substitution (one item used once, twice, with a prefix)
+        if scenario % 7 == 5 {
+            let (len, pre, times) = *rng.pick(&[(131071u64, 1u64, 1u64), (131071, 0, 1), (131070, 1, 1), (70000, 0, 2), (65535, 1, 2), (65535, 0, 2), (65536, 0, 2), (43690, 0, 3), (43691, 0, 3), (100, 3, 4), (131072, 0, 1)]);
+            let groups = json!([{"count": 3, "len": 50}, {"count": 2, "len": len}, {"count": 3, "len": 10}]);
+            return json!({"mode": "run", "groups": groups, "opts": [], "env": envs[rng.below(2)], "rlim": *rng.pick(&rlims), "init": {"count": 0, "len": 0},
+                          "repl": {"pre": pre, "times": times}});
+        }
+        // the command behind a path longer than the 2048 bytes of headroom, with small arguments that fill every command line to the brim
+        if scenario % 7 == 3 {
+            let groups = match rng.below(3) {
+                0 => json!([{"count": if big { 600000 } else { 300000 }, "len": 1}]),
+                1 => json!([{"count": 120000, "len": 3}, {"count": 120000, "len": 1}]),
+                _ => json!([{"count": 1 + rng.below(200000), "len": 1 + rng.below(6)}, {"count": 250000, "len": 1}]),
+            };
+            return json!({"mode": "run", "groups": groups, "opts": [], "env": envs[rng.below(3)], "rlim": *rng.pick(&[512u64 * 1024, 8 << 20, 2 << 20, 0]), "init": {"count": 0, "len": 0},
+                          "cmdpath": {"len": 2200 + rng.below(1700), "via_path": rng.chance(1, 3)}});
+        }
         // every third scenario with fixed initial arguments, several KiB of them
         let init = if scenario % 3 == 1 { *rng.pick(&[(60u64, 100u64), (300, 50), (5, 1000), (40, 400)]) } else { (0, 0) };
         json!({"mode": "run", "groups": groups, "opts": opts, "env": envs[rng.below(envs.len())], "rlim": *rng.pick(&rlims),
